@@ -45,7 +45,8 @@ type pathDef struct {
 	TruncAt  int               // array destinations shorter than the result
 	PadTo    int               // array destinations: zero rows expected up to this length
 	Thorough bool
-	PtrPrim  bool // destination is a slice of pointers to a primitive
+	PtrPrim  bool // destination is a slice of pointers to a primitive (column c)
+	PtrPrimS bool // likewise, column s
 	LiteSkip bool // not executed for the override-pair grids (B, C)
 	NoSchema bool // the path has no model: orderings that need the schema (clause.PrimaryKey) are skipped
 	Run      func(db *gorm.DB, c Chain, batch int, o *obs)
@@ -85,11 +86,40 @@ func normVal(v interface{}) string {
 }
 
 func mapRow(m map[string]interface{}) string {
-	s := fmt.Sprintf("%s|%s|%s|%s|%s|%s", normVal(m["id"]), normVal(m["a"]), normVal(m["b"]), normVal(m["c"]), normVal(m["l"]), normVal(m["p"]))
-	if len(m) != 6 {
+	ss := normVal(m["s"])
+	if ss != "NULL" {
+		ss = fmt.Sprintf("%q", ss)
+	}
+	s := fmt.Sprintf("%s|%s|%s|%s|%s|%s|%s|%s", normVal(m["id"]), normVal(m["a"]), normVal(m["b"]), normVal(m["c"]), ss, normVal(m["k"]), normVal(m["l"]), normVal(m["p"]))
+	if len(m) != 8 {
 		s += fmt.Sprintf(" (map has %d keys)", len(m))
 	}
 	return s
+}
+
+var mapKeyOf = map[uint]string{}
+
+func init() {
+	for _, it := range allRows {
+		mapKeyOf[it.ID] = mapKey(it)
+	}
+}
+
+// projMap: the expected form of a row read into a map (memoised).
+func projMap(it Item) string { return mapKeyOf[it.ID] }
+
+func projS(it Item) string {
+	if sNull(it.ID) {
+		return "NULL"
+	}
+	return it.S
+}
+
+func projK(it Item) string {
+	if kNull(it.ID) {
+		return "NULL"
+	}
+	return fmt.Sprint(it.K)
 }
 
 func mapRows(ms []map[string]interface{}) []string {
@@ -165,13 +195,13 @@ var paths = []pathDef{
 		o.rows, o.ra, o.err = rowKeys(d[:]), tx.RowsAffected, tx.Error
 		o.tx = tx
 	}},
-	{Name: "Model.Find(&[]map)", Root: rootModel, Kind: kMulti, Run: func(q *gorm.DB, c Chain, _ int, o *obs) {
+	{Name: "Model.Find(&[]map)", Proj: projMap, Root: rootModel, Kind: kMulti, Run: func(q *gorm.DB, c Chain, _ int, o *obs) {
 		var d []map[string]interface{}
 		tx := q.Find(&d)
 		o.rows, o.ra, o.err = mapRows(d), tx.RowsAffected, tx.Error
 		o.tx = tx
 	}},
-	{Name: `Table("items").Find(&[]map)`, Root: rootTable, Kind: kMulti, NoSchema: true, Run: func(q *gorm.DB, c Chain, _ int, o *obs) {
+	{Name: `Table("items").Find(&[]map)`, Proj: projMap, Root: rootTable, Kind: kMulti, NoSchema: true, Run: func(q *gorm.DB, c Chain, _ int, o *obs) {
 		var d []map[string]interface{}
 		tx := q.Find(&d)
 		o.rows, o.ra, o.err = mapRows(d), tx.RowsAffected, tx.Error
@@ -204,7 +234,7 @@ var paths = []pathDef{
 		}
 		o.err = rows.Err()
 	}},
-	{Name: "Model.Rows+ScanRows(&map)", Root: rootModel, Kind: kMulti, Run: func(q *gorm.DB, c Chain, _ int, o *obs) {
+	{Name: "Model.Rows+ScanRows(&map)", Proj: projMap, Root: rootModel, Kind: kMulti, Run: func(q *gorm.DB, c Chain, _ int, o *obs) {
 		o.ra = -1
 		rows, err := q.Rows()
 		if err != nil {
@@ -241,7 +271,7 @@ var paths = []pathDef{
 		o.ra, o.err = tx.RowsAffected, tx.Error
 		o.tx = tx
 	}},
-	{Name: "Model.Scan(&[]map)", Root: rootModel, Kind: kMulti, Run: func(q *gorm.DB, c Chain, _ int, o *obs) {
+	{Name: "Model.Scan(&[]map)", Proj: projMap, Root: rootModel, Kind: kMulti, Run: func(q *gorm.DB, c Chain, _ int, o *obs) {
 		var d []map[string]interface{}
 		tx := q.Scan(&d)
 		o.rows, o.ra, o.err = mapRows(d), tx.RowsAffected, tx.Error
@@ -295,6 +325,37 @@ var paths = []pathDef{
 		o.rows, o.ra, o.err = append([]string{}, d...), tx.RowsAffected, tx.Error
 		o.tx = tx
 	}},
+	{Name: `Model.Pluck("s", &[]sql.NullString)`, Root: rootModel, Kind: kMulti, Proj: projS, Run: func(q *gorm.DB, c Chain, _ int, o *obs) {
+		var d []sql.NullString
+		tx := q.Pluck("s", &d)
+		for _, v := range d {
+			if v.Valid {
+				o.rows = append(o.rows, v.String)
+			} else {
+				o.rows = append(o.rows, "NULL")
+			}
+		}
+		o.ra, o.err = tx.RowsAffected, tx.Error
+		o.tx = tx
+	}},
+	{Name: `Model.Pluck("k", &[]sql.NullInt64)`, Root: rootModel, Kind: kMulti, Proj: projK, Run: func(q *gorm.DB, c Chain, _ int, o *obs) {
+		var d []sql.NullInt64
+		tx := q.Pluck("k", &d)
+		for _, v := range d {
+			o.rows = append(o.rows, normVal(v))
+		}
+		o.ra, o.err = tx.RowsAffected, tx.Error
+		o.tx = tx
+	}},
+	{Name: `Model.Pluck("s", &[]*string)`, Root: rootModel, Kind: kMulti, Proj: projS, PtrPrimS: true, Run: func(q *gorm.DB, c Chain, _ int, o *obs) {
+		var d []*string
+		tx := q.Pluck("s", &d)
+		for _, v := range d {
+			o.rows = append(o.rows, normVal(v))
+		}
+		o.ra, o.err = tx.RowsAffected, tx.Error
+		o.tx = tx
+	}},
 	{Name: `Model.Pluck("c", &[]sql.NullInt64)`, Root: rootModel, Kind: kMulti, Proj: projC, Run: func(q *gorm.DB, c Chain, _ int, o *obs) {
 		var d []sql.NullInt64
 		tx := q.Pluck("c", &d)
@@ -331,7 +392,7 @@ var paths = []pathDef{
 		o.ra, o.err = tx.RowsAffected, tx.Error
 		o.tx = tx
 	}},
-	{Name: "Model.Find(&map)", Root: rootModel, Kind: kSingle, Run: func(q *gorm.DB, c Chain, _ int, o *obs) {
+	{Name: "Model.Find(&map)", Proj: projMap, Root: rootModel, Kind: kSingle, Run: func(q *gorm.DB, c Chain, _ int, o *obs) {
 		d := map[string]interface{}{}
 		tx := q.Find(&d)
 		singleMap(d, o)
@@ -345,7 +406,7 @@ var paths = []pathDef{
 		o.ra, o.err = tx.RowsAffected, tx.Error
 		o.tx = tx
 	}},
-	{Name: "Model.Scan(&map)", Root: rootModel, Kind: kSingle, Run: func(q *gorm.DB, c Chain, _ int, o *obs) {
+	{Name: "Model.Scan(&map)", Proj: projMap, Root: rootModel, Kind: kSingle, Run: func(q *gorm.DB, c Chain, _ int, o *obs) {
 		d := map[string]interface{}{}
 		tx := q.Scan(&d)
 		singleMap(d, o)
@@ -411,7 +472,7 @@ var paths = []pathDef{
 		o.ra, o.err = tx.RowsAffected, tx.Error
 		o.tx = tx
 	}},
-	{Name: "Model.First(&map)", Root: rootModel, Kind: kFinder, Run: func(q *gorm.DB, c Chain, _ int, o *obs) {
+	{Name: "Model.First(&map)", Proj: projMap, Root: rootModel, Kind: kFinder, Run: func(q *gorm.DB, c Chain, _ int, o *obs) {
 		d := map[string]interface{}{}
 		tx := q.First(&d)
 		singleMap(d, o)
@@ -432,7 +493,7 @@ var paths = []pathDef{
 		o.ra, o.err = tx.RowsAffected, tx.Error
 		o.tx = tx
 	}},
-	{Name: "Model.Take(&map)", Root: rootModel, Kind: kFinder, Run: func(q *gorm.DB, c Chain, _ int, o *obs) {
+	{Name: "Model.Take(&map)", Proj: projMap, Root: rootModel, Kind: kFinder, Run: func(q *gorm.DB, c Chain, _ int, o *obs) {
 		d := map[string]interface{}{}
 		tx := q.Take(&d)
 		singleMap(d, o)
@@ -453,7 +514,7 @@ var paths = []pathDef{
 		o.ra, o.err = tx.RowsAffected, tx.Error
 		o.tx = tx
 	}},
-	{Name: "Model.Last(&map)", Root: rootModel, Kind: kFinder, Last: true, Run: func(q *gorm.DB, c Chain, _ int, o *obs) {
+	{Name: "Model.Last(&map)", Proj: projMap, Root: rootModel, Kind: kFinder, Last: true, Run: func(q *gorm.DB, c Chain, _ int, o *obs) {
 		d := map[string]interface{}{}
 		tx := q.Last(&d)
 		singleMap(d, o)
